@@ -5,6 +5,7 @@ import DaskModel.Lemmas.ShufflePlanLemmas
 import DaskModel.Lemmas.ReshapeGroupsLemmas
 import DaskModel.Lemmas.ReshapeWalkInv
 import DaskModel.Lemmas.StructuralOpsLemmas
+import DaskModel.Lemmas.StructuralCatLemmas
 import DaskModel.Generated.ChunkTolerance
 /-!
 # C24 — structural array operations equal NumPy (theorems)
@@ -15,7 +16,7 @@ import DaskModel.Generated.ChunkTolerance
 * `reshape`: `expand_tuple_spec`, `contract_tuple_spec`, the two 2-d plans `reshape_merge_den` / `reshape_merge_ones_den`, and the
   general n-d statement `reshape_blocks_den` / `reshape_rechunk_groupsOK` / `reshape_den`;
 * blockwise / key-map plans on 2-d block tables: `transpose_den`, `flip_den`, `rot90_den`, `tril_den`, `triu_den`, `stack_den`,
-  `broadcast_to_den`.
+  `broadcast_to_den`, `concat2d_den`, `block_den`, `tile2d_den`; constant pad `pad_const_den`.
 Not proved (validated against NumPy by harness/props/c24.py): n-d versions of the 2-d / 1-d plans (product structure),
 squeeze (integer indexing: slicing group), block / tile with nested lists (nested `concatenate`), statistics / edge / constant /
 linear_ramp pads, `repeat`'s slab cutting, `_rechunk_other_dimensions` of `shuffle`, `x.rechunk(result_inchunks)` (C23).
@@ -643,5 +644,61 @@ theorem diff_den (xs : List Int) (u : List Nat) (p : Nat) (hu : sum u = xs.lengt
 example : (elemwiseBlocks (· - ·) (splitBy [1, 2] ([1, 4, 9, 16].drop 1)) (splitBy [1, 2] ([1, 4, 9, 16] : List Int).dropLast)).flatten
     = [3, 5, 7] := by decide
 example : diffN 2 [1, 4, 9, 16] = [2, 2] := by decide
+
+
+/-- **concat2d_den**: `concatenate` of two 2-d arrays along axis 1 (axis 0) whose other axis has the same (unified) chunks:
+    chunk tuples appended, key `(i, j)` taken from the array `bisect` finds; assembled it is NumPy's concatenate -/
+theorem concat2d_den {α} (rc c1 c2 : List Nat) (A B : Nat → Nat → α) (p q : Nat) (hp : p < sum rc) (hq : q < sum c1 + sum c2) :
+    ((Grid.ofFn rc c1 A).hcat (Grid.ofFn rc c2 B)).read p q = some (if q < sum c1 then A p q else B p (q - sum c1)) ∧
+    ((Grid.ofFn c1 rc (fun q p => A p q)).vcat (Grid.ofFn c2 rc (fun q p => B p q))).read q p
+      = some (if q < sum c1 then A p q else B p (q - sum c1)) := by
+  constructor
+  · rw [Grid.hcat_read]
+    show (if q < sum c1 then (Grid.ofFn rc c1 A).read p q else (Grid.ofFn rc c2 B).read p (q - sum c1)) = _
+    by_cases h : q < sum c1 <;> simp only [h, if_true, if_false]
+    · exact Grid.read_ofFn rc c1 A p q hp h
+    · exact Grid.read_ofFn rc c2 B p _ hp (by omega)
+  · rw [Grid.vcat_read]
+    show (if q < sum c1 then (Grid.ofFn c1 rc (fun q p => A p q)).read q p
+          else (Grid.ofFn c2 rc (fun q p => B p q)).read (q - sum c1) p) = _
+    by_cases h : q < sum c1 <;> simp only [h, if_true, if_false]
+    · exact Grid.read_ofFn c1 rc _ q p h hp
+    · exact Grid.read_ofFn c2 rc _ _ p (by omega) hp
+
+example : ((Grid.ofFn [1, 1] [2] (fun p q => 10 * p + q)).hcat (Grid.ofFn [1, 1] [1, 1] (fun p q => 100 + 10 * p + q))).read 1 3
+    = some 111 := by decide
+
+/-- **block_den**: `block([[a, b], [c, d]])` (innermost lists concatenated along the last axis, then along the first) -/
+theorem block_den {α} (r1 r2 c1 c2 : List Nat) (A B C D : Nat → Nat → α) (p q : Nat)
+    (hp : p < sum r1 + sum r2) (hq : q < sum c1 + sum c2) :
+    (block2x2 (Grid.ofFn r1 c1 A) (Grid.ofFn r1 c2 B) (Grid.ofFn r2 c1 C) (Grid.ofFn r2 c2 D)).read p q =
+      some (if p < sum r1 then (if q < sum c1 then A p q else B p (q - sum c1))
+            else (if q < sum c1 then C (p - sum r1) q else D (p - sum r1) (q - sum c1))) :=
+  block2x2_read r1 r2 c1 c2 A B C D p q hp hq
+
+/-- **tile2d_den**: `tile(A, (r0, r1))` = `block(r0 * [r1 * [A]])`: element `(p, q)` is `A[p mod N, q mod M]` -/
+theorem tile2d_den {α} (rc cc : List Nat) (A : Nat → Nat → α) (r0 r1 p q : Nat) (hp : p < r0 * sum rc) (hq : q < r1 * sum cc) :
+    ((Grid.ofFn rc cc A).tile r0 r1).read p q = some (A (p % sum rc) (q % sum cc)) := by
+  rw [Grid.tile_read _ r0 r1 p q hp hq]
+  have h1 : 0 < sum rc := by
+    rcases Nat.eq_zero_or_pos (sum rc) with h | h
+    · rw [h] at hp; omega
+    · exact h
+  have h2 : 0 < sum cc := by
+    rcases Nat.eq_zero_or_pos (sum cc) with h | h
+    · rw [h] at hq; omega
+    · exact h
+  exact Grid.read_ofFn rc cc A _ _ (Nat.mod_lt _ h1) (Nat.mod_lt _ h2)
+
+example : ((Grid.ofFn [1, 1] [2, 1] (fun p q => 10 * p + q)).tile 2 3).read 3 7 = some 11 := by decide
+
+/-- **pad_const_den** (one axis, mode="constant"): the pads are chunked like the array's largest chunk
+    (`get_pad_shapes_chunks`; those chunks add up to the pad width), and the concatenation is NumPy's constant pad -/
+theorem pad_const_den {α} (chunks : List Nat) (blocks : List (List α)) (l r : Nat) (v : α) :
+    (padConstBlocks chunks blocks l r v).flatten = List.replicate l v ++ blocks.flatten ++ List.replicate r v ∧
+    sum (padChunks true chunks l) = l ∧ sum (padChunks true chunks r) = r :=
+  ⟨padConstBlocks_flatten chunks blocks l r v, padChunks_sum true chunks l, padChunks_sum true chunks r⟩
+
+example : padConstBlocks [2, 1] [[1, 2], [3]] 3 1 0 = [[0, 0], [0], [1, 2], [3], [0]] := by decide
 
 end Dask.C24
